@@ -345,9 +345,10 @@ impl<'a> TypstTranslator<'a> {
                 set_rule.condition().and_then(|expr| recurse!(expr)),
                 parse_args(&mut set_rule.args().items())
             ],
+            // The selector precedes the transform in the source.
             Expr::Show(show_rule) => merge![
-                recurse!(show_rule.transform()),
-                show_rule.selector().and_then(|expr| recurse!(expr))
+                show_rule.selector().and_then(|expr| recurse!(expr)),
+                recurse!(show_rule.transform())
             ],
             Expr::Contextual(contextual) => recurse!(contextual.body()),
             Expr::Conditional(conditional) => merge![
